@@ -332,11 +332,20 @@ func runC16(r *Run, stratum string) *Violation {
 	go func() { done <- follower.Run() }()
 	var runErr error
 	ended := false
+	// after a leader id switch at offset S (fail-over answered +CONTINUE): whatever the leader's source sends from then on
+	// belongs to the NEW id; a follower that still files its copy under the old id must not hold anything beyond S,
+	// at no moment ("never mixes two replication ids") - it is told about the new id and moves its copy first
+	switchedFrom, switchAt := "", int64(-1)
 	poll := func() {
 		select {
 		case runErr = <-done:
 			ended = true
 		default:
+		}
+		if switchedFrom != "" && c.viol == nil && F.ch.RunId() == switchedFrom {
+			if _, fr := F.ch.GetOffsetRange(switchedFrom); fr > switchAt {
+				c.setViolation("C16.mixed_ids", "the follower files bytes of the leader's new replication id under the old one", "the leader switched from id %s to id %s at offset %d; the follower's copy under the old id reaches %d", tailID(switchedFrom), tailID(idL), switchAt, fr)
+			}
 		}
 	}
 
@@ -400,6 +409,7 @@ func runC16(r *Run, stratum string) *Violation {
 						Inconc("leader SetRunId: %v", err)
 					}
 					old := L.id
+					switchedFrom, switchAt = old, L.right
 					L.id = newID
 					in.ids = []string{newID, old}
 					idL = newID
